@@ -1,4 +1,5 @@
 CONSTANTS DMax = 4
 BatchSet = {0, 1, 2}
+ExpDims = {4, 8}
 SPECIFICATION Spec
 INVARIANT TypeOK
